@@ -108,7 +108,8 @@ MUTATORS = {
         ("sites via a set", r"quimb/tensor/tnag/core\.py$", r"^(\s+)k_inds = tuple\(map\(self\.site_ind, keep\)\)\s*$", r"\1keep = frozenset(keep)\n\1k_inds = tuple(map(self.site_ind, keep))"),
         ("cache key without where", r"quimb/tensor/tnag/core\.py$", r"^(\s+)info\[\"expecs\"\]\[loop, where\] = expec_loop, norm_loop\s*$", r'\1info["expecs"][loop] = expec_loop, norm_loop'),
         ("cluster forgets exponent", r"quimb/tensor/tnag/core\.py$", r"^(\s+)k\.exponent = self\.exponent\s*$", None),
-        ("unnormalised value not rescaled", r"quimb/tensor/tn1d/core\.py$", r"^(\s+)(rho|x) = (rho|x) \* 10 \*\* \(2 \* self\.exponent\)\s*$", r"\1pass"),
+        ("unnormalised value not rescaled", r"quimb/tensor/(tn1d|tn2d|tn3d)/core\.py$", r"^(\s+)(rho|x|expec_ij) = (rho|x|expec_ij) \* 10 \*\* \(2 \* self\.exponent\)\s*$", r"\1pass"),
+        ("3D cluster forgets exponent", r"quimb/tensor/tn3d/core\.py$", r"^(\s+)k\.exponent = self\.exponent\s*$", None),
         ("drop rehearse", r"quimb/tensor/(tnag/core|tn1d/core|tn2d/core|tn3d/core)\.py$", r"^(\s+)rehearse=rehearse,\s*$", None),
     ],
     "C14": [
@@ -242,7 +243,7 @@ def _run_one(args):
             return ["ANALYSIS-ERROR:" + type(e).__name__ + ":" + str(e)[:80]]
 
 
-def make_selftest(pid, sample=10):
+def make_selftest(pid, sample=30):
     def selftest(ctx, seed):
         from .registry import REGISTRY
         base = set()
